@@ -48,8 +48,10 @@ BigDocsApply == {Wide(1001), Wide(1200), VObj(<< <<KA, Wide(1001)>> >>), TenA}
 \* member names of 256 and 300 bytes (under object, array and scalar parents)
 LongTok == {[i \in 1..256 |-> 97], [i \in 1..300 |-> IF i = 299 THEN 126 ELSE IF i = 300 THEN 49 ELSE 97]}
 BigIdx == LongTok \cup {<<52, 50, 57, 52, 57, 54, 55, 50, 57, 54>>, <<52, 50, 57, 52, 57, 54, 55, 50, 57, 55>>, <<49, 56, 52, 52, 54, 55, 52, 52, 48, 55, 51, 55, 48, 57, 53, 53, 49, 54, 49, 54>>, <<49, 56, 52, 52, 54, 55, 52, 52, 48, 55, 51, 55, 48, 57, 53, 53, 49, 54, 49, 55>>, <<50, 49, 52, 55, 52, 56, 51, 54, 52, 56>>}
+\* what a C library number parser would take for an index but RFC 6901 does not (sign, blank, hexadecimal, exponent)
+OddIdx == {<<43, 49>>, <<32, 49>>, <<49, 32>>, <<45, 48>>, <<48, 120, 48>>, <<49, 101, 48>>, <<43, 48>>}
 PtrsOf(d) == {PointerTo(d, p) : p \in PathsOf(d)}
-Beyond(d) == UNION {{q \o <<47>> \o t : t \in {<<120>>, <<45>>, <<48>>, <<49>>, <<50>>, <<51>>, <<48, 49>>, <<>>, KA, <<97, 126, 49, 98>>, <<109, 126, 48, 110>>} \cup BigIdx} : q \in PtrsOf(d)}
+Beyond(d) == UNION {{q \o <<47>> \o t : t \in {<<120>>, <<45>>, <<48>>, <<49>>, <<50>>, <<51>>, <<48, 49>>, <<>>, KA, <<97, 126, 49, 98>>, <<109, 126, 48, 110>>} \cup BigIdx \cup OddIdx} : q \in PtrsOf(d)}
 Odd == {<<97>>, <<47, 126, 50>>, <<47, 97, 47, 126>>}
 Ptrs(d) == PtrsOf(d) \cup Beyond(d) \cup (IF Tier = "quick" THEN {<<97>>} ELSE Odd)
 
